@@ -158,6 +158,42 @@ def Node.endsNL : Node → Bool
   | .not_ _ | .and_ _ _ | .or_ _ _ => true
   | _ => false
 
+/-- operands after which both passes make the same decision in `EmitFunc1(OP_UN_MINUS)`: a literal just emitted, a node
+that ends in an opcode without operand-literal, or again a unary minus on such an operand -/
+def Node.evOk : Node → Bool
+  | .int _ | .float _ => true
+  | .f1 op x => if op = OP_UN_MINUS then x.evOk else !byteLit (op % 256)
+  | .field _ _ _ _ l => match l with | .listener b => decide (b ≤ 6) | _ => true
+  | .f2 op _ _ => !byteLit (op % 256)
+  | .listener b => !byteLit ((OP_STORE_GAME + b) % 256)
+  | .str _ | .nil | .null | .vec _ _ _ | .idx _ _ | .carr _ _ | .marr _ | .cmdx _ _ _ | .mcmdx _ _ _ _
+  | .not_ _ | .and_ _ _ | .or_ _ _ => true
+  | _ => false
+
+/-- `EvalPrevValue` when the previous opcode carries no operand-literal: it depends on that opcode only -/
+theorem evalPrev_nl {s : St} (hw : WOk s) (h : NL s) :
+    s.evalPrev = .ok (if (ent s 0).op = OP_STORE_INT0 then some (false, 0) else none) := by
+  unfold St.evalPrev
+  rw [prevOp_eq s hw]
+  have h' := of_decide_eq_false h
+  have e0 : OP_STORE_INT0 = 12 := rfl
+  have e1 : OP_STORE_INT1 = 13 := rfl
+  have e2 : OP_STORE_INT2 = 14 := rfl
+  have e3 : OP_STORE_INT3 = 15 := rfl
+  have e4 : OP_STORE_INT4 = 16 := rfl
+  have e8 : OP_STORE_INT8 = 17 := rfl
+  have ef : OP_STORE_FLOAT = 21 := rfl
+  simp only [ok_bind, e0, e1, e2, e3, e4, e8, ef] at h' ⊢
+  by_cases a0 : (ent s 0).op = 12
+  · simp [a0]
+  · have a1 : (ent s 0).op ≠ 13 := by omega
+    have a2 : (ent s 0).op ≠ 14 := by omega
+    have a3 : (ent s 0).op ≠ 15 := by omega
+    have a4 : (ent s 0).op ≠ 16 := by omega
+    have a8 : (ent s 0).op ≠ 17 := by omega
+    have af : (ent s 0).op ≠ 21 := by omega
+    simp [a0, a1, a2, a3, a4, a8, af]
+
 set_option hygiene false in
 macro "t_node" : tactic =>
   `(tactic| (simp only [emit]; (try simp only [ok_bind, error_bind, throw_eq, pure_eq]); t_walk))
